@@ -20,6 +20,7 @@ Definition known_D2 := 2.
 Definition known_D29 := 29.
 Definition known_D30 := 30.
 Definition known_D35 := 35.
+Definition known_D41 := 41.
 
 Definition has_sub (sub s : string) : bool := match Eval.find_sub sub s with Some _ => true | None => false end.
 
@@ -28,6 +29,7 @@ Definition classify (plus : bool) (cs : cluster) (flags : list string) (msg : st
   else if has_sub "nginx plus token not set" msg && class_D35 plus cs then code_known known_D35
   else if has_sub "NGINX Plus Secret did not have expected field" msg && mem_str "usage-secret-without-key" flags then code_known known_D30
   else if has_sub "index out of range" msg && mem_str "btp-empty-ca-list" flags then code_known known_D29
+  else if has_sub "index out of range" msg && mem_str "btp-ancestors-full" flags then code_known known_D41
   else code_violation.
 
 Definition check_case (c : case) : list nat :=
